@@ -311,4 +311,8 @@ def run(ctx):
                 from_labels = any(t in a for t in ("get_nodes", "degree", "isolated_nodes", "get_neighbors")) or any((h + ".") in a for h in hg_params)
                 res.add("I-ISOL", v.fi.short, a, "from-incidence", "violation" if from_labels and "transform(" not in a else "unknown", "isolated nodes are taken from the hypergraph's node labels, not from the rows of the incidence matrix: with labels other than 0..N-1 the wrong rows are dropped", loc(v.fi, v.fi.node))
     res.assumptions += ["scipy.sparse.csr_array is introspected on a 1x1 instance of the installed library (trusted base)", "sklearn KMeans with a fixed random_state is deterministic (library)"]
+    with res.guard("general lint pack over the property's files"):
+        from ..lints import check_pack
+
+        check_pack(ctx, res, "C17")
     return res
